@@ -887,11 +887,24 @@ def rule_no_default_before_star(repo: Repo, rep, rule: str = "R1.16") -> None:
                 return [t for v in defs[e.id] for t in texts(v, depth + 1)]
             return [None]
 
+        # lists whose elements are added to the parameter list in front of the star (`param_parts.extend(operation_parts)`)
+        lists = {lst}
+        for _ in range(3):
+            for nd in cfg.nodes:
+                if nd.kind != "stmt" or nd.ast is None or nd.copy or star.id not in cfg.reachable(nd.id):
+                    continue
+                for c in calls_in(nd.ast):
+                    if isinstance(c.func, ast.Attribute) and c.func.attr == "extend" and isinstance(c.func.value, ast.Name) and c.func.value.id in lists and c.args \
+                            and isinstance(c.args[0], ast.Name):
+                        lists.add(c.args[0].id)
+                if isinstance(nd.ast, ast.Assign) and len(nd.ast.targets) == 1 and isinstance(nd.ast.targets[0], ast.Name) and nd.ast.targets[0].id in lists \
+                        and isinstance(nd.ast.value, ast.Name):
+                    lists.add(nd.ast.value.id)  # a plain copy (`result = parts`)
         for nd in cfg.nodes:
             if nd.kind != "stmt" or nd.ast is None or nd.copy or nd.id == star.id or star.id not in cfg.reachable(nd.id):
                 continue
             for c in calls_in(nd.ast):
-                if not (isinstance(c.func, ast.Attribute) and c.func.attr in ("append", "insert") and isinstance(c.func.value, ast.Name) and c.func.value.id == lst and c.args):
+                if not (isinstance(c.func, ast.Attribute) and c.func.attr in ("append", "insert") and isinstance(c.func.value, ast.Name) and c.func.value.id in lists and c.args):
                     continue
                 n += 1
                 ts = texts(c.args[-1])
